@@ -213,10 +213,19 @@ Definition guard (text : bytes) : option bool :=
 
 (* ---------- store/state.go, store/store.go ---------- *)
 
-(* PragmaCheckRequest.Check: error iff some statement of the request is a breaking PRAGMA *)
-Definition pragma_check (stmts : list bytes) : option bool :=
+(* proto.Statement as far as the guard could look at it: the text and the flags that the HTTP
+   layer's command/sql.Process sets before the request reaches the Store (SqlExplain from a
+   parse of the FIRST statement of the text only, ForceQuery for RETURNING). *)
+Record statement := { st_sql : bytes; st_explain : bool; st_force_query : bool }.
+
+(* PragmaCheckRequest.Check:
+     for _, stmt := range p.Statements { if sql.IsBreakingPragma(stmt.Sql) { return error } }
+   error iff some statement of the request is a breaking PRAGMA.  Every statement is examined:
+   there is NO test of stmt.SqlExplain / stmt.ForceQuery (an "EXPLAIN ...; PRAGMA x=1" text is
+   flagged SqlExplain by the HTTP layer and SQLite still executes its second statement). *)
+Definition pragma_check (stmts : list statement) : option bool :=
   fold_right (fun st acc =>
-                match guard st, acc with
+                match guard (st_sql st), acc with
                 | Some b, Some a => Some (b || a)
                 | _, _ => None
                 end) (Some false) stmts.
@@ -226,7 +235,7 @@ Inductive entry := Execute | Query | Request.
 (* Store.Execute / Store.Query / Store.Request: each starts with
      p := PragmaCheckRequest(x.Request); if err := p.Check(); err != nil { return ..., err }
    before anything else is looked at.  true = the request is refused with "disallowed pragma". *)
-Definition store_refuses (e : entry) (stmts : list bytes) : option bool :=
+Definition store_refuses (e : entry) (stmts : list statement) : option bool :=
   match e with
   | Execute => pragma_check stmts
   | Query => pragma_check stmts
@@ -257,14 +266,14 @@ Record case := {
   c_text : bytes;                 (* the SQL text *)
   c_guard : bool;                 (* real IsBreakingPragma(text) *)
   c_obs : list observed;          (* one observation per way the text was executed on real SQLite *)
-  c_refused : list bool           (* real Store.Execute, Query, Request on a request holding
-                                     [harmless; text; harmless]: refused with "disallowed pragma"? ([] = not run) *)
+  c_reqs : list (list statement); (* the requests handed to real Store.Execute, Query, Request (in this order), built
+                                     as http.Service builds them: [harmless; text; harmless] run through the real
+                                     command/sql.Process, so texts and flags are what production sends ([] = not run) *)
+  c_refused : list bool           (* each of them refused with "disallowed pragma"? *)
 }.
 
 Definition opt_bool_eqb (a : option bool) (b : bool) : bool :=
   match a with Some x => Bool.eqb x b | None => false end.
-
-Definition harmless : bytes := bytes_of_string "SELECT 1".
 
 Definition check_case (c : case) : bool :=
   opt_bool_eqb (guard (c_text c)) (c_guard c)
@@ -272,12 +281,11 @@ Definition check_case (c : case) : bool :=
      | Some l => forallb (fun o => predicted o l) (c_obs c)
      | None => false
      end
-  && match c_refused c with
-     | [] => true
-     | obs => let req := [harmless; c_text c; harmless] in
-              match store_refuses Execute req, store_refuses Query req, store_refuses Request req with
-              | Some a, Some b, Some d =>
-                if list_eq_dec Bool.bool_dec obs [a; b; d] then true else false
-              | _, _, _ => false
-              end
+  && match c_reqs c, c_refused c with
+     | [r1; r2; r3], [o1; o2; o3] =>
+       opt_bool_eqb (store_refuses Execute r1) o1
+       && opt_bool_eqb (store_refuses Query r2) o2
+       && opt_bool_eqb (store_refuses Request r3) o3
+     | [], [] => true
+     | _, _ => false
      end.
